@@ -1,4 +1,5 @@
 """A2 -- guard facts by dominance, A5 -- must-pass-through, plus small CFG queries shared by rules."""
+import os
 from facts import subterms, tstr, callee_name
 
 NEG = {"Eq": "Ne", "Ne": "Eq", "Lt": "Ge", "Ge": "Lt", "Gt": "Le", "Le": "Gt"}
@@ -50,14 +51,155 @@ def bool_facts(cond, truth):
     return out
 
 
-def facts_at(b, block):
-    """Facts that hold whenever `block` is entered: edges (u,v) with v dominating block and v having the single predecessor u."""
+def _getter_field(F, name):
+    """Field name if crate function `name` is a plain getter `fn f(&self) -> T { self.<field> }` (possibly cast), else None."""
+    if F is None or not F.has_body(name):
+        return None
+    cache = F.__dict__.setdefault("_getter_cache", {})
+    if name not in cache:
+        res = None
+        try:
+            cb = F.body(name)
+            if cb.nargs == 1:
+                t = cb.term_of_local(0)
+                path = []
+                while isinstance(t, tuple) and t and t[0] in ("field", "ref", "deref", "cast"):
+                    if t[0] == "field":
+                        path.append(t[2])
+                    t = t[1]
+                if isinstance(t, tuple) and t and t[0] == "param" and t[1] == 0 and path:
+                    res = path[-1]
+        except Exception:
+            res = None
+        cache[name] = res
+    return cache[name]
+
+
+def _mem_reads(f, F=None):
+    """(param index, field name) for every read of a field of the object behind a reference parameter in a fact's terms, directly
+    or through a plain getter. Results of other calls are values fixed when the call returned and are not re-read."""
+    from facts import subterms
+    out = set()
+    terms = [x for x in f[1:] if isinstance(x, tuple)]
+    for t in terms:
+        for x in subterms(t):
+            if x[0] == "field":
+                path = []
+                y = x
+                while isinstance(y, tuple) and y and y[0] in ("field", "ref", "deref", "cast", "downcast"):
+                    if y[0] == "field":
+                        path.append(y[2])
+                    y = y[1]
+                if isinstance(y, tuple) and y and y[0] == "param" and path:
+                    out.add((y[1], path[-1]))
+            elif x[0] == "call" and len(x[2]) == 1:
+                g = _getter_field(F, x[1])
+                if g is not None:
+                    y = x[2][0]
+                    while isinstance(y, tuple) and y and y[0] in ("ref", "deref", "cast"):
+                        y = y[1]
+                    if isinstance(y, tuple) and y and y[0] == "param":
+                        out.add((y[1], g))
+    return out
+
+
+def _mutations(b, param):
+    """Stores into / &mut calls on the object behind `&mut` parameter `param` (0-based): [(block, kind, first field or None)]."""
+    cache = b.__dict__.setdefault("_mut_sites", {})
+    if param not in cache:
+        sites = []
+        if b.local_ty(param + 1).startswith("&mut"):
+            from effects import mutation_sites
+            for bi, kind, desc, sp in mutation_sites(b, param + 1, by_ref=True):
+                sites.append((bi, kind, desc.split(".")[0] if kind == "store" and desc != "*" else None))
+        cache[param] = sites
+    return cache[param]
+
+
+def fact_still_valid(b, v, block, f):
+    """A fact established on entry of v still holds on entry of `block` (and up to its terminator) unless the memory it reads may
+    be written in between: a store to the same field of the same `&mut` parameter, or a `&mut` call on it, in a block that is
+    reachable from v and from which `block` is reachable (a call terminating `block` itself is the use, not an intervening write)."""
+    reads = _mem_reads(f, getattr(b, "F", None) or getattr(b, "facts", None))
+    if not reads:
+        return True
+    reach_v = b.__dict__.setdefault("_reach_cache", {})
+    if v not in reach_v:
+        reach_v[v] = b.reach_from([v])
+    for param, field in reads:
+        for d, kind, sfield in _mutations(b, param):
+            if d not in reach_v[v]:
+                continue
+            if kind == "store" and field is not None and sfield is not None and sfield != field:
+                continue
+            if d == block:
+                continue        # the guarded site itself (a store, or the call that ends the block)
+            if block in b.reach_from(b.succ(d)):
+                return False
+    return True
+
+
+def facts_at(b, block, evaluated_before=False):
+    """Facts that hold whenever `block` is entered: edges (u,v) with v dominating block and v having the single predecessor u,
+    and whose field reads cannot have been overwritten between v and block.
+    evaluated_before=True: the weaker "this test was evaluated (and came out this way) on every path to block" -- no invalidation;
+    for rules that ask for a guard to *precede* a scan whose own steps move the compared cursor."""
     if getattr(b, "_edge_facts", None) is None:
         b._edge_facts = edge_facts(b)
+    cache = b.__dict__.setdefault("_facts_at", {})
+    key = (block, evaluated_before)
+    if key in cache:
+        return cache[key]
     res = []
+    cache[key] = res          # (recursion guard for the correlation step below)
     for u, v, f in b._edge_facts:
         if b.pred(v) == [u] and b.dominates(v, block):
-            res.append(f)
+            # invalidation by intervening stores is experimental (needs may-store callee summaries to be exact): off by default
+            if evaluated_before or not os.environ.get("VERIF_INVALIDATION") or fact_still_valid(b, v, block, f):
+                res.append(f)
+    # discriminant-correlated facts: a dominating fact "x holds variant V" (directly, or through `x?` taking the Continue arm)
+    # about a local all of whose definitions build known variants means the most recent definition executed was one that builds
+    # V; what held at every such definition held on the way here (a helper returning Ok only behind its own checks, inlined)
+    extra = []
+    for f in list(res):
+        if f[0] != "discr" or isinstance(f[2], tuple):
+            continue
+        src = f[1]
+        if isinstance(src, tuple) and src and src[0] == "discr":
+            src = src[1]
+        while isinstance(src, tuple) and src and src[0] in ("ref", "deref", "cast"):
+            src = src[1]
+        vnames = None
+        if isinstance(src, tuple) and src and src[0] == "call" and src[1].endswith("::branch") and "Try" in src[1] and len(src[2]) == 1:
+            vnames = ("Ok", "Some") if f[2] == 0 else ("Err", "None")
+            src = src[2][0]
+            while isinstance(src, tuple) and src and src[0] in ("ref", "deref", "cast"):
+                src = src[1]
+        if not (isinstance(src, tuple) and src and src[0] == "var"):
+            continue
+        if vnames is None:
+            # a direct match on the local: variant index -> names via the aggregates that define it
+            names = set()
+            for (bi, si, kind, rv) in b.defs().get(src[1], []):
+                if kind == "assign" and rv["r"] == "agg" and rv.get("agg") == "adt" and rv.get("variant") == f[2] and rv.get("vname"):
+                    names.add(rv["vname"])
+            if len(names) != 1:
+                continue
+            vnames = tuple(names)
+        hit = b.variant_defs(src[1], vnames)
+        if not hit:
+            continue
+        common = None
+        for (dbi, rv) in hit:
+            if dbi == block:
+                common = []
+                break
+            fs = facts_at(b, dbi, evaluated_before)
+            common = list(fs) if common is None else [x for x in common if x in fs]
+        for x in common or []:
+            if x not in res and x not in extra:
+                extra.append(x)
+    res.extend(extra)
     return res
 
 
@@ -153,9 +295,58 @@ def try_sites(b):
             # break arm: from_residual into _0, then only returns
             bb = site["break_block"]
             tt = b.blocks[bb]["term"]
-            if tt["t"] == "call" and tt["callee"].get("def") == "std::ops::FromResidual::from_residual" and \
-                    tt["dest"]["l"] == 0 and not tt["dest"]["p"]:
-                site["residual_ok"] = True
+            if tt["t"] == "call" and tt["callee"].get("def") == "std::ops::FromResidual::from_residual" and not tt["dest"]["p"]:
+                if tt["dest"]["l"] == 0:
+                    site["residual_ok"] = True
+                elif tt.get("target") is not None:
+                    # the residual is built in a local (the `?` sits in a helper that was inlined): it must reach _0 by plain
+                    # moves only and the function must return without doing anything else
+                    carried = {tt["dest"]["l"]}
+                    cur, steps, ok = tt["target"], 0, False
+                    while steps < 16:
+                        steps += 1
+                        plain = True
+                        for st in b.blocks[cur]["stmts"]:
+                            if st["s"] == "assign" and st["rv"]["r"] == "use" and not st["lhs"]["p"]:
+                                q = st["rv"]["o"].get("m") or st["rv"]["o"].get("c")
+                                if q is not None and q["l"] in carried and all(isinstance(e, dict) and ("down" in e or "f" in e) for e in q["p"]):
+                                    carried.add(st["lhs"]["l"])
+                                    continue
+                            if st["s"] == "assign" and st["lhs"]["p"]:
+                                plain = False       # a store to memory; assignments to plain locals (drop flags, discriminant reads) are inert
+                        t2 = b.blocks[cur]["term"]
+                        if not plain:
+                            break
+                        if t2["t"] == "return":
+                            ok = 0 in carried
+                            break
+                        if t2["t"] in ("goto", "drop") and t2.get("target") is not None:
+                            cur = t2["target"]
+                            continue
+                        # the error is re-propagated by an enclosing `?` (the inner `?` sat in a helper that was inlined):
+                        # branch(err) -> Break arm -> from_residual
+                        if t2["t"] == "call" and t2.get("target") is not None and not t2["dest"]["p"] and \
+                                t2["callee"].get("def") in ("std::ops::Try::branch", "std::ops::FromResidual::from_residual"):
+                            q = t2["args"][0].get("m") or t2["args"][0].get("c")
+                            if q is not None and q["l"] in carried:
+                                carried.add(t2["dest"]["l"])
+                                cur = t2["target"]
+                                continue
+                            break
+                        if t2["t"] == "switch":
+                            dq = t2["discr"].get("m") or t2["discr"].get("c")
+                            src = None
+                            if dq is not None and not dq["p"]:
+                                for st in b.blocks[cur]["stmts"]:
+                                    if st["s"] == "assign" and not st["lhs"]["p"] and st["lhs"]["l"] == dq["l"] and st["rv"]["r"] == "discr":
+                                        src = st["rv"]["p"]["l"]
+                            brk = [d for v, d in t2["targets"] if int(v) == 1]
+                            if src in carried and len(brk) == 1:
+                                cur = brk[0]
+                                continue
+                        break
+                    site["residual_ok"] = ok
+                    site["chain_verified"] = ok     # the walk above ended at `return` with the error in _0 and met nothing else
         out.append(site)
     return out
 
@@ -226,3 +417,37 @@ def is_min_name(n):
 
 def is_max_name(n):
     return n.endswith("cmp::max") or n.endswith("cmp::Ord::max")
+
+
+def resolve_nonzero_vars(b, block, term):
+    """A local that is `X` on one path and the constant 0 on all others, used under a dominating `local != 0` (or `> 0`) test, is X
+    there (`let n = if a > b { a - b } else { 0 }; if n > 0 { use(n) }`). Rewrites such locals inside `term`; returns
+    (term, facts that hold where X was computed)."""
+    facts = facts_at(b, block)
+    extra = []
+
+    def walk(t):
+        if not isinstance(t, tuple) or not t:
+            return t
+        if isinstance(t[0], str):
+            if t[0] == "var":
+                ds = b.defs().get(t[1], [])
+                if ds and all(d[2] == "assign" for d in ds):
+                    vals = [(d[0], b.term_of_rvalue(d[3])) for d in ds]
+                    zeros = [v for v in vals if strip_casts(v[1])[0] == "const" and strip_casts(v[1])[1] == 0]
+                    rest = [v for v in vals if v not in zeros]
+                    if zeros and len(rest) == 1 and fact_nonzero(facts, t):
+                        for f in facts_at(b, rest[0][0]):
+                            if f not in extra:
+                                extra.append(f)
+                        return walk(rest[0][1])
+                return t
+            if t[0] in ("param", "const", "namedconst", "constref", "static", "bytes", "fn", "zst", "constdbg", "promoted"):
+                return t
+            if t[0] == "call":
+                return (t[0], t[1], tuple(walk(x) for x in t[2])) + t[3:]
+            if t[0] == "adt":
+                return t[:4] + (tuple(walk(x) for x in t[4]),)
+            return tuple(walk(x) if isinstance(x, tuple) else x for x in t)
+        return tuple(walk(x) for x in t)
+    return walk(term), extra
